@@ -27,6 +27,7 @@ import (
 	"time"
 
 	"github.com/tmpim/casket/caskethttp/httpserver"
+	"github.com/tmpim/casket/caskethttp/staticfiles"
 	"github.com/russross/blackfriday"
 )
 
@@ -44,6 +45,9 @@ type Markdown struct {
 
 	// The list of markdown configurations
 	Configs []*Config
+
+	// Files of the site that are never served (the site's hidden files)
+	Hide []string
 }
 
 // Config stores markdown middleware configurations.
@@ -155,6 +159,12 @@ func (md Markdown) ServeHTTP(w http.ResponseWriter, r *http.Request) (int, error
 		return http.StatusGone, nil
 	}
 	lastModTime = latest(lastModTime, fs.ModTime())
+
+	// a hidden file is not rendered either, e.g. when it is the index
+	// file of the requested directory
+	if (staticfiles.FileServer{Root: md.FileSys, Hide: md.Hide}).IsHidden(fs) {
+		return http.StatusNotFound, nil
+	}
 
 	ctx := httpserver.NewContextWithHeader(w.Header())
 	ctx.Root = md.FileSys
